@@ -140,6 +140,57 @@ fn cmd_replay(args: &[String], reg: &Reg, table: ProfileTable) -> i32 {
             return 2;
         }
     };
+    if v.get("kind").and_then(|k| k.as_str()) == Some("thread-history") {
+        let prop = v["property"].as_str().unwrap_or("").to_string();
+        let oracle = v["oracle"].as_str().unwrap_or("").to_string();
+        let seed = v["seed"].as_u64().unwrap_or(1);
+        let run = v["run"].as_u64().unwrap_or(0);
+        let workers = v["workers"].as_u64().unwrap_or(1).max(1);
+        if v["tier"] == "thorough" {
+            crate::set_scale(3);
+        }
+        let ps = table(&prop);
+        let Some(p) = pick_profile(&ps, v["profile"].as_str().unwrap_or("")) else { return 2 };
+        if let Some(limit) = v["search_limit"].as_u64() {
+            // single-threaded search from a fresh process: deterministic by construction
+            for r in 0..limit {
+                let o = run_one(p, reg, seed, r);
+                if let Some(f) = o.armed.iter().find(|f| f.oracle == oracle) {
+                    let mut nb = v.clone();
+                    nb.as_object_mut().unwrap().remove("search_limit");
+                    nb["run"] = json!(r);
+                    nb["workers"] = json!(1);
+                    nb["finding"] = json!(f);
+                    nb["note"] = json!("depends on process-wide state of the code under test; replay = runs 0..=run on one thread of a fresh process");
+                    let out = std::path::Path::new(path).with_file_name(format!("{}-{}-{}-history.json", prop, seed, r));
+                    std::fs::write(&out, serde_json::to_string_pretty(&nb).unwrap()).expect("write replay");
+                    println!("REPRODUCED property={} oracle={} run={} :: {}", f.property, f.oracle, r, f.detail);
+                    println!("VIOLATION property={} replay={}", f.property, out.display());
+                    return 1;
+                }
+            }
+            println!("NOT-REPRODUCED property={prop} oracle={oracle} (search limit {limit})");
+            return 0;
+        }
+        let mut r = run % workers;
+        loop {
+            let o = run_one(p, reg, seed, r);
+            if r == run {
+                return match o.armed.iter().find(|f| f.oracle == oracle) {
+                    Some(f) => {
+                        println!("REPRODUCED property={} oracle={} run={} :: {}", f.property, f.oracle, run, f.detail);
+                        println!("VIOLATION property={} replay={}", f.property, path);
+                        1
+                    }
+                    None => {
+                        println!("NOT-REPRODUCED property={prop} oracle={oracle}");
+                        0
+                    }
+                };
+            }
+            r += workers;
+        }
+    }
     if v.get("kind").and_then(|k| k.as_str()) == Some("build-gate") {
         println!("replay of a build-gate violation = rebuilding; see {}", v["log"]);
         return 2;
@@ -245,10 +296,52 @@ fn cmd_check(args: &[String], reg: &Reg, table: ProfileTable) -> i32 {
                     println!("minimised {} ops / {} faults -> {} ops / {} faults", o.plan.ops.len(), o.plan.faults.len(), body["plan"]["ops"].as_array().map(|a| a.len()).unwrap_or(0), body["plan"]["faults"].as_array().map(|a| a.len()).unwrap_or(0));
                     violation = Some((fin.oracle.clone(), path));
                 } else {
-                    harness.push(format!(
-                        "run {} failed ({}) but its minimised replay did not reproduce in a fresh process: determinism leak",
-                        run, f.oracle
-                    ));
+                    // Not reproducible from its own plan in a fresh process. Either the simulator leaks
+                    // nondeterminism (harness error), or the code under test carries state from one
+                    // delivery / contract instance / run to the next (a static, a cache): then the
+                    // violation needs the history of its worker thread. Replay exactly that history:
+                    // runs run%workers, +workers, ... up to the failing run, on one thread.
+                    let hist = replays.join(format!("{}-{}-{}-history.json", prop, seed, run));
+                    let hbody = json!({
+                        "kind": "thread-history", "property": prop, "oracle": f.oracle, "seed": seed, "run": run,
+                        "workers": workers, "profile": p.name(), "tier": tier, "finding": f,
+                        "note": "the violation depends on state the code under test carries across deliveries / runs; replay re-executes the worker thread's whole history",
+                    });
+                    std::fs::write(&hist, serde_json::to_string_pretty(&hbody).unwrap()).expect("write replay");
+                    let exe = std::env::current_exe().expect("exe");
+                    let st = std::process::Command::new(exe).arg("replay").arg(&hist).output().expect("spawn replay");
+                    if st.status.code() == Some(1) {
+                        println!("violation: {} :: {}", f.oracle, f.detail);
+                        println!("(not reproducible from the run's own plan: it depends on state carried across runs; the replay file holds the worker thread's history)");
+                        violation = Some((f.oracle.clone(), hist));
+                    } else {
+                        // process-global state (shared by the worker threads) does not replay from one
+                        // thread's history either. A fresh single-threaded process is deterministic:
+                        // search it for the same oracle and hand out that history as the replay.
+                        let search = replays.join(format!("{}-{}-search.json", prop, seed));
+                        let sbody = json!({
+                            "kind": "thread-history", "property": prop, "oracle": f.oracle, "seed": seed, "run": 0,
+                            "workers": 1, "profile": p.name(), "tier": tier, "search_limit": n.min(30_000),
+                        });
+                        std::fs::write(&search, serde_json::to_string_pretty(&sbody).unwrap()).expect("write replay");
+                        let exe = std::env::current_exe().expect("exe");
+                        let st = std::process::Command::new(exe).arg("replay").arg(&search).output().expect("spawn replay");
+                        let out = String::from_utf8_lossy(&st.stdout).to_string();
+                        let found = out.lines().find_map(|l| l.strip_prefix("VIOLATION ").and_then(|r| r.split("replay=").nth(1)).map(|s| s.trim().to_string()));
+                        let _ = std::fs::remove_file(&hist);
+                        let _ = std::fs::remove_file(&search);
+                        match (st.status.code(), found) {
+                            (Some(1), Some(path)) => {
+                                println!("violation: {} :: {}", f.oracle, f.detail);
+                                println!("(depends on process-wide state carried across runs; replay = single-threaded history found by search)");
+                                violation = Some((f.oracle.clone(), PathBuf::from(path)));
+                            }
+                            _ => harness.push(format!(
+                                "run {} failed ({}) but neither its minimised plan, nor its thread history, nor a single-threaded search reproduced it in a fresh process: determinism leak",
+                                run, f.oracle
+                            )),
+                        }
+                    }
                 }
             }
         }
